@@ -1,4 +1,5 @@
 import Orx.KSRun
+import Orx.GenThms.Ctor
 /-! # C19 Non-consuming iteration leaves the source intact; iterators are independent -/
 namespace Orx.Props.C19
 open Orx Orx.KS
@@ -39,5 +40,38 @@ theorem non_consuming_source_untouched (s : KSrc) (hno : s.owning = false) (l : 
 theorem reference_is_original (vals : List Nat) (i : Nat) (hi : i < vals.length) :
     ({ kind := .slice, vals := vals } : KSrc).valAt i = vals[i] := by
   simp [KSrc.valAt, List.getD, hi]
+
+
+/-! ## Construction and cloning as in the source (`Generated/ArithCtor.lean`, translated on every run) -/
+section Source
+open Orx.RS Orx.Gen Orx.GenThms
+
+/-- **`con_iter()` leaves the collection intact and delivers its elements in place**: the iterator returned for a vector,
+an array or a slice is `ConIterOfSlice` over the collection's own storage (a slice of the same length: nothing is read, moved
+or cloned at construction), starting at position 0, without touching any shared state; a range iterator holds a copy of the
+bounds -/
+theorem source_con_iter_in_place (len a b : Nat) (s : St) :
+    CtorVec.con_iter ⟨len⟩ s = .ok ⟨⟨len⟩, ⟨0⟩⟩ s ∧ CtorArr.con_iter ⟨len⟩ s = .ok ⟨⟨len⟩, ⟨0⟩⟩ s ∧
+    CtorSlice.con_iter ⟨len⟩ s = .ok ⟨⟨len⟩, ⟨0⟩⟩ s ∧ CtorSlice.into_con_iter ⟨len⟩ s = .ok ⟨⟨len⟩, ⟨0⟩⟩ s ∧
+    CtorRange.con_iter ⟨a, b⟩ s = .ok ⟨⟨a, b⟩, ⟨0⟩⟩ s ∧ CtorRange.into_con_iter ⟨a, b⟩ s = .ok ⟨⟨a, b⟩, ⟨0⟩⟩ s :=
+  con_iter_in_place len a b s
+
+/-- **a clone starts at the original's current position and is independent of it — as in the source = the model's `clone`
+step**: `Clone for ConIterOfSlice` (and the derived `Clone` of `ConIterOfRange`, field by field) performs exactly one `SeqCst`
+load `c` of the original's counter, writes nothing to it, and returns an iterator over the same slice / range whose own,
+fresh counter starts at `c`; the model's step logs the same access and initialises the clone's slot with the value read -/
+theorem source_clone_is_model_clone (len a b cv : Nat) (evs dr) (s : KSrc) (t : Nat) (c : Cfg) (k j : Nat) (rest : List SOp)
+    (buf : Option (Nat × Nat)) (h : c.th t = { pc := .atom ⟨k, .clone j⟩, todo := rest, buf := buf }) :
+    NewSlice.clone ⟨⟨len⟩, {}⟩ (st cv evs dr) = .ok ⟨⟨len⟩, ⟨cv⟩⟩ (st cv (evs ++ [.ld (.ctr 0) .seqcst cv]) dr) ∧
+    Range.clone_derived ⟨⟨a, b⟩, {}⟩ (st cv evs dr) = .ok ⟨⟨a, b⟩, ⟨cv⟩⟩ (st cv (evs ++ [.ld (.ctr 0) .seqcst cv]) dr) ∧
+    ("Clone" ∈ Range.derives ∧ Range.manual_clone = false) ∧
+    (step s t c).1.ctr j = c.ctr k ∧ (step s t c).2 = [.ld (.ctr k) .seqcst (c.ctr k), .ret .unit] := by
+  refine ⟨slice_clone len cv evs dr, range_clone a b cv evs dr, range_clone_is_derived, clone_starts_at_current s t c k j rest buf h, ?_⟩
+  unfold step stepAtom
+  simp only [h]
+  unfold stepRest
+  simp [h, applyAtom]
+
+end Source
 
 end Orx.Props.C19
